@@ -312,6 +312,16 @@ Definition set_boot_script (v : sval) : result (option str) :=
   | SStr s => if boot_script_ok (Z.of_nat (List.length s)) boot_script_max then Ok (Some s) else Err EAssert
   end.
 
+(* ModelElement.name setter and rename (fim/user/model_element.py:69-79, 140-144) on an element whose
+   sliver class is cls and whose name in the graph is old: the handle caches the new value BEFORE the
+   sliver validates it, so a rejected assignment leaves the rejected string in the handle while the graph
+   keeps the old name.  Result: ((handle name, graph name), exception) *)
+Definition elem_set_name (cls : str) (old : str) (s : str) : (str * str) * option exn :=
+  match set_name cls (SStr s) with
+  | Ok _ => ((s, s), None)
+  | Err e => ((s, old), Some e)
+  end.
+
 (* ------------------------------------------------------------------------------------------ *)
 (* JSONData                                                                                     *)
 (* ------------------------------------------------------------------------------------------ *)
@@ -476,4 +486,19 @@ Definition check_misc (m : misc) : bool :=
       | Err _ => true
       end
   | M_caps fg kws r => result_eqb ckvs_eqb (caps_ctor fg kws) r
+  end.
+
+(* the same values arriving through the topology API *)
+Inductive topo :=
+| T_labels (x : lentry * lobs)
+| T_misc (m : misc)
+| T_setname (cls old s : str) (handle graph : str) (e : option exn).
+
+Definition check_topo (t : topo) : bool :=
+  match t with
+  | T_labels x => check_labels x
+  | T_misc m => check_misc m
+  | T_setname cls old s h g e =>
+      let '((h', g'), e') := elem_set_name cls old s in
+      str_eqb h h' && str_eqb g g' && opt_eqb exn_eqb e e'
   end.
